@@ -9,6 +9,7 @@ in `St.trace` is what the correspondence compares with the interpreter.
 import Anko.Model.Eval
 import Anko.Proofs.EvalMono
 import Anko.Proofs.EvalProbe
+import Anko.Gen.Operators
 
 set_option linter.unusedSectionVars false
 set_option linter.unusedSimpArgs false
@@ -256,5 +257,42 @@ theorem trace_is_append_only_stmt (fuel : Nat) (st : Stmt) (s : St) : s.trace.to
 
 theorem trace_is_append_only_program (fuel : Nat) (p : Stmt) (s : St) : s.trace.toList <+: (runProgram fuel p s).trace.toList :=
   (mono_runProgram fuel p s).2.2
+
+/-! ### The operand preamble of the binary operators in the source (regenerated: Gen/Operators)
+
+Before its switch every one of the three operator functions of vm/vmOperator.go does the same thing, and nothing else: evaluate the
+LEFT operand (one `invokeExpr`), stop on an error, open the interface, keep an unaliased copy; evaluate the RIGHT operand (one
+`invokeExpr`), stop on an error, open the interface. That is the order and the "exactly once" the model's `evalBinary` mirrors; an
+operand evaluated again in an arm would show as an `invokeExpr` in the arms (`no_arm_evaluates_an_operand_again`). -/
+
+def operandPreamble : List String := [
+  "runInfo.expr = operator.LHS", "runInfo.invokeExpr()", "E != nil => return", "R.Kind() == Interface && !R.IsNil() => R = R.Elem()",
+  "L := unalias(R)",
+  "runInfo.expr = operator.RHS", "runInfo.invokeExpr()", "E != nil => return", "R.Kind() == Interface && !R.IsNil() => R = R.Elem()"]
+
+def preambleOf (fn : String) : List String :=
+  (Gen.Operators.arms.filter (fun a => a.1 == fn && a.2.1 == "(before)")).map (fun a => a.2.2)
+
+theorem operators_evaluate_left_then_right_once :
+    preambleOf "invokeAddOperator" = operandPreamble ∧ preambleOf "invokeMultiplyOperator" = operandPreamble ∧
+    preambleOf "invokeComparisonOperator" = operandPreamble ++ ["var result bool"] := by decide +kernel
+
+def hasPrefix : List Char → List Char → Bool
+  | _, [] => true
+  | [], _ :: _ => false
+  | c :: cs, d :: ds => c == d && hasPrefix cs ds
+
+def hasInfix : List Char → List Char → Bool
+  | [], sub => sub.isEmpty
+  | c :: cs, sub => hasPrefix (c :: cs) sub || hasInfix cs sub
+
+def mentions (s sub : String) : Bool := hasInfix s.toList sub.toList
+
+theorem no_arm_evaluates_an_operand_again :
+    (Gen.Operators.arms.filter (fun a => a.2.1 != "(before)")).all
+      (fun a => !mentions a.2.2 "invokeExpr" && !mentions a.2.2 "runInfo.expr" && !mentions a.2.2 "operator.LHS" && !mentions a.2.2 "operator.RHS") = true := by
+  decide +kernel
+
+example : mentions "runInfo.invokeExpr()" "invokeExpr" = true ∧ mentions "R = nilValue" "invokeExpr" = false := by decide +kernel
 
 end Anko.C07
